@@ -625,6 +625,16 @@ func sliceValue[T scalarProtoFieldGoType](fd *FieldData, wt csproto.WireType, re
 			res = make([]T, 0, len(fd.data))
 		}
 		for _, data := range fd.data {
+			if wt == csproto.WireTypeLengthDelimited {
+				// length-delimited values are never packed: exactly one value per occurrence,
+				// including an empty one
+				v, _, err := convertFn(data)
+				if err != nil {
+					return nil, err
+				}
+				res = append(res, v)
+				continue
+			}
 			// data contains 1 or more encoded values of type T
 			// . invoke convertFn at each successive offset to extract them
 			for offset := 0; offset < len(data); {
